@@ -98,6 +98,16 @@ def run_proof(prop, tier, jobs):
     else:
         with mp.get_context("fork").Pool(min(jobs, len(ids))) as pool:
             recs = pool.map(R._work, [(None, i) for i in ids], chunksize=1)
+    # a solver budget exhausted under machine load is not a verdict: re-run what is left undecided, alone and with a
+    # six times larger budget, before reporting it (refuted / discharged verdicts are never revisited)
+    retry = [i for i, r in enumerate(recs) if r["status"] == "undecided"]
+    if retry:
+        V.SOLVER_TIMEOUT_MS = V.SOLVER_TIMEOUT_MS * 6
+        os.environ["VERIF_BRANCH_TIMEOUT_MS"] = "60000"
+        for i in retry:
+            r2 = R._work((None, recs[i]["id"]))
+            r2.setdefault("notes", []).append("re-run with a larger solver budget after an undecided first attempt")
+            recs[i] = r2
     return {"obligations": recs, "wall_s": round(time.time() - t0, 2)}
 
 
